@@ -88,6 +88,10 @@ impl Api {
             .collect();
         code(self.p.clone().publish(PublishRequest { topic: topic.into(), messages }).await).map(|r| r.message_ids)
     }
+    /// Publish with every field of the messages under the caller's control.
+    pub async fn publish_raw(&self, topic: &str, messages: Vec<PubsubMessage>) -> Result<Vec<String>, Code> {
+        code(self.p.clone().publish(PublishRequest { topic: topic.into(), messages }).await).map(|r| r.message_ids)
+    }
     pub async fn list_topics(&self, project: &str, size: i32, token: &str) -> Result<(Vec<String>, String), Code> {
         code(self.p.clone().list_topics(ListTopicsRequest { project: project.into(), page_size: size, page_token: token.into() }).await)
             .map(|r| (r.topics.into_iter().map(|t| t.name).collect(), r.next_page_token))
